@@ -36,14 +36,15 @@ fn ran(id: i64) { LOG.with(|l| l.borrow_mut().push(id)) }
 // =============================================================================================== catalogue: types
 #[derive(Deserialize, Schema)]
 #[allow(dead_code)]
-struct QPlain { q: String, n: Option<u32> }
+struct QPlain { q: String, limit: u32, n: Option<u32> }      // (two required fields, not declared in alphabetical order)
 #[derive(Deserialize, Schema)]
 #[openapi(component)]
 #[allow(dead_code)]
 struct QComp { page: u32, tag: Option<String> }
 #[derive(Deserialize, Schema)]
 #[allow(dead_code)]
-struct BPlain { name: String, age: u32, tags: Vec<String>, nick: Option<String> }
+#[serde(rename_all = "camelCase")]
+struct BPlain { name: String, age: u32, tags: Vec<String>, nick: Option<String>, #[serde(rename = "e_mail")] mail: String }     // (a renamed field keeps its name under rename_all)
 #[derive(Deserialize, Serialize, Schema, Clone)]
 #[openapi(component)]
 struct Owner { id: u32, name: String }
@@ -509,9 +510,9 @@ fn request_from_scn(lit: &str, method: &str, sig: &Value, guards: &[&str]) -> Re
     let mut path: String = lit.split('/').map(|sg| if sg.starts_with(':') { "1" } else { sg }).collect::<Vec<_>>().join("/");
     if path.is_empty() { path.push('/') }
     let mut rq = Req { method: method.to_string(), path, headers: vec![], body: vec![] };
-    match s(&sig["ex"]) { "q" | "qj" => rq.path.push_str("?q=s&n=1"), "qc" => rq.path.push_str("?page=1&tag=s"), _ => {} }
+    match s(&sig["ex"]) { "q" | "qj" => rq.path.push_str("?q=s&n=1&limit=2"), "qc" => rq.path.push_str("?page=1&tag=s"), _ => {} }
     match s(&sig["ex"]) {
-        "j" | "qj" | "oj" => body_for("application/json", &json!({"name": "s", "age": 1, "tags": ["s"]}), &mut rq),
+        "j" | "qj" | "oj" => body_for("application/json", &json!({"name": "s", "age": 1, "tags": ["s"], "e_mail": "s"}), &mut rq),
         "jc" => body_for("application/json", &json!({"title": "s", "owner": {"id": 1, "name": "s"}, "co": []}), &mut rq),
         "jb" => body_for("application/json", &json!({"name": "s", "active": true}), &mut rq),
         "jn" => body_for("application/json", &json!({"age": 1, "codes": [1]}), &mut rq),
